@@ -49,7 +49,8 @@ theorem records_thread {old new : Emu} {rs : List PrvRec} (h : records old new =
     (∃ r, emitRaw 0 (t.gindex + 1) prvThreadState prvSkipDup t.chState = .ok r ∧ ∀ y ∈ r, y ∈ rs) := by
   unfold records at h
   obtain ⟨r, hr, hsub⟩ := collect_ok h
-    (threadRecords (allSpecs.filter fun s => new.enabled.contains s.char) (old.threads.getD t.gindex t) t)
+    (threadRecords ((allSpecs.filter fun s => new.enabled.contains s.char) ++ new.extra)
+      (old.threads.getD t.gindex t) t)
     (List.mem_append_left _ (List.mem_map.mpr ⟨t, ht, rfl⟩))
   unfold threadRecords at hr
   have h1 := collect_ok hr (emitRaw 0 (t.gindex + 1) prvThreadCpu prvNext t.chCpu)
